@@ -112,6 +112,9 @@ func (cr *concRun) do(client int, o Op) {
 	if cr.opLog != nil {
 		cr.opLog("inv", client, len(cr.hist), &ev)
 	}
+	if cr.c.Sched.PerCallCtx && o.Ctx == "" {
+		o.Ctx = "percall"
+	}
 	r := cr.a.apply(cr.w.Ctx, o)
 	simrt.Yield("op.return")
 	ev.Ret = simrt.Step()
